@@ -64,7 +64,7 @@ _CH_NOTE = "Trusted: Lean kernel + audited axioms (decide +kernel over finite ta
 CLAIMED["C06"] = {
   "text": "Lean 4 proofs by complete enumeration (decide +kernel, lifted by closure lemmas) over all 326 well-formed queue states that the packed u16 queues are exact List FIFOs: dequeue hands out the head and leaves the tail, enqueue appends at the tail and never panics with room, empty is reported iff empty, pack is injective and well-formed states are closed; model-level lemma for every state and every environment choice that a value is discarded only by a step that read an empty `empty` queue. Tied to /repo by the regenerated constants, the exhaustive get/set table (2^16 x 5 x 9 arguments, real functions vs model), lock-step execution of the real Channel under the scheduler (N threads, bursts beyond capacity, sends nested as a signal handler, spurious CAS failures) against the model, FIFO/uniqueness/outstanding-count monitors on the implementation trace, and an unscheduled stress search when the correspondence breaks.",
   "design_ref": "DESIGN.md section 6 C06",
-  "note": _CH_NOTE + " The N-thread invariant of the view-based model (Lemmas/ChannelInv.lean: one holder per slot index, every value in both histories well-formed, cells of `full`'s indices occupied) is proved for every reachable state: C06_queues_wellformed, C06_fifo_transitions; the payload-level statement (values, per-producer order, five outstanding) is the monitor's. 40% of the scheduled scenarios use a channel built through Default (as the exfiltrators build theirs); sequential histories of 70 000 (thorough: 200 000) operations check overflow and reuse over a long life.",
+  "note": _CH_NOTE + " The N-thread invariant of the view-based model (Lemmas/ChannelInv.lean: one holder per slot index, every value in both histories well-formed, cells of `full`'s indices occupied) is proved for every reachable state: C06_queues_wellformed, C06_fifo_transitions; the payload-level statement (values, per-producer order, five outstanding) is the monitor's. 40% of the scheduled scenarios use a channel built through Default (as the exfiltrators build theirs); sequential histories of 70 000 (thorough: 200 000) operations check overflow and reuse over a long life. Values, not just indexes (Props/C06b.lean over the payload invariant of Lemmas/ChannelPay.lean, every reachable state of the N-thread weak-memory model): C06_values_fifo, C06_values_are_sent, C06_recv_takes_its_own, C06_queued_values_intact.",
   "technique": "Lean 4 inductive invariant over the N-thread view-based channel machine + exhaustive kernel-checked tables; lock-step correspondence; exhaustive bit-function table",
 }
 CLAIMED["C07"] = {
@@ -84,7 +84,7 @@ _IT_NOTE = "Trusted: Lean kernel + audited axioms; SC for `closed` and the Signa
 CLAIMED["C09"] = {
   "text": "Machine-checked inductive invariant on the iterator model L8 (any number of delivery and close threads, one consumer of either front-end family, any pipe capacity > 0 and initial fill, every interleaving): a delivered signal whose wake-up has completed is either announced by a byte in the pipe, or the instance is closed, or the consumer is at a point from which it compare-exchanges that signal's slot before it can block or answer Pending. Corollaries: while open, a consumer blocked in its blocking read with an empty pipe, or at/after a non-blocking callback that found nothing, or parked as Pending with an exhausted iterator, has no delivered-and-woken signal unreported; a scan reaching a set slot yields it; store precedes wake. Tied to /repo by lock-step execution of the real SignalDelivery/SignalIterator (real dispatcher + real action, callbacks as scheduling points, optionally pre-filled pipe) against L8 and a lost-wake-up monitor on the implementation trace.",
   "design_ref": "DESIGN.md section 6 C09",
-  "note": _IT_NOTE + " Liveness ('obtains the signal') is proved in the safety form above (never stranded) plus the scan lemma, not as a temporal statement. The front ends themselves (Signals::pending/wait/forever with its has_signals loop, signal-hook-mio under a real mio::Poll, the tokio and async-std streams with a flag waker) are driven by real raise() in forked children and compared with L8 run sequentially (driver mode frontends), bursts around the 16-byte and 1024-byte chunk sizes included. Queueing exfiltrators (WithRawSiginfo / WithOrigin): model L8q (Model/IterQ.lean: one SLOTS-deep FIFO per signal, two-step send and recv, a record dropped exactly when all indexes of its channel are queued or held) with the inductive invariant WakeQ and theorems C09_queue_never_stranded / C09_queue_parked_pending for every reachable state (Props/C09q.lean), run in lock-step with the real back end at the level of channel operation halves.",
+  "note": _IT_NOTE + " Liveness ('obtains the signal') is proved in the safety form above (never stranded) plus the scan lemma, not as a temporal statement. The front ends themselves (Signals::pending/wait/forever with its has_signals loop, signal-hook-mio under a real mio::Poll, the tokio and async-std streams with a flag waker) are driven by real raise() in forked children and compared with L8 run sequentially (driver mode frontends), bursts around the 16-byte and 1024-byte chunk sizes included. Queueing exfiltrators (WithRawSiginfo / WithOrigin): model L8q (Model/IterQ.lean: one SLOTS-deep FIFO per signal, two-step send and recv, a record dropped exactly when all indexes of its channel are queued or held) with the inductive invariant WakeQ and theorems C09_queue_never_stranded / C09_queue_parked_pending for every reachable state (Props/C09q.lean), run in lock-step with the real back end at the level of channel operation halves. Progress for forever() (Props/C09c.lean): C09_forever_obtains / C09_forever_obtains_reachable - the consumer running alone hands a delivered-and-woken signal out within fcost own steps.",
   "technique": "Lean 4 inductive invariant over an N-thread step machine + lock-step model/implementation correspondence",
 }
 CLAIMED["C10"] = {
